@@ -133,7 +133,7 @@ func worldDocs(w *World) []interface{} {
 }
 
 func genMutCase(r *Rng, id int, tier string) *Sx {
-	cfg := &genCfg{anp: r.P(50), banp: true, pods: true, ingress: r.P(60), namedOnIPPct: 0, maxNP: 3, maxWl: 4}
+	cfg := &genCfg{anp: r.P(50), banp: true, pods: true, ingress: r.P(60), icNs: true, namedOnIPPct: 0, maxNP: 3, maxWl: 4}
 	w := genWorld(r, cfg)
 	// make sure real pods with owner references and services appear often
 	if r.P(50) {
